@@ -143,10 +143,43 @@ def handleHttp (kv : List (String × String)) (impl : String) : String × String
         let exp := Spec.C10.expectedTag cfg.enabled cfg.uriElements cfg.noTagOnly r.tag r.path
         (line, Spec.C10.judgeHttp exp truth (mine.map ObsS.toObs))
       let stray := obs.filter fun o => o.id == 0 || o.id > reqs.length
+      -- several instances (inst>1): the harness numbers the samples by REQUEST (unique tag r<i>) and lists the real ids
+      -- separately; the model (`runIds`: one atomic Add per acquisition, in whatever order) says they are a permutation
+      -- of 1..n and cannot say which one; the Spec demands that they are pairwise distinct.
+      let multi := ((getN? kv "inst").getD 1) > 1
+      let implIds : List Nat := (splitList (getS ikv "ids") ",").filterMap String.toNat?
+      let modelIds : List Nat := (runIds 0 (List.range reqs.length)).map Prod.snd
+      let isPerm := implIds.length == modelIds.length && modelIds.all implIds.contains
+      let idsField := if !multi then "" else
+        " ids=" ++ String.intercalate "," ((if isPerm then implIds else modelIds).map toString)
+      let vIds := if multi && !Spec.C10.idsUnique implIds then
+          s!"fail:ids:{implIds.length} samples carry ids {getS ikv "ids"}"
+        else "ok"
       let v := if res != "ok" then s!"fail:run:{res}"
                else if !stray.isEmpty then "fail:count:sample with an id no request carries"
-               else firstFail (rows.map (·.2))
-      (fmtLine "ok" (rows.flatMap (·.1)), v)
+               else firstFail (rows.map (·.2) ++ [vIds])
+      (fmtLine "ok" (rows.flatMap (·.1)) ++ idsField, v)
+
+/-- `pan=1`: the http2 gun against a TLS target without HTTP/2 — the documented fatal condition. `Do` panics, the deferred
+`Report` still delivers the one sample (proto 0, net 0), the engine aborts the run. Judged: one sample, right tag. -/
+def handleHttpFatal (kv : List (String × String)) (impl : String) : String × String :=
+  let cfg : AutoTagCfg := { enabled := getS kv "auto" == "1", uriElements := (getN? kv "el").getD 0, noTagOnly := getS kv "nto" == "1" }
+  match (splitList (getS kv "reqs") ";").mapM parseHReq with
+  | some [r] =>
+    let shot : HttpShot := { ammoTag := r.tag, id := 1, path := r.path, outcome := .doPanic }
+    let rs := shootHttp cfg shot
+    let line := fmtLine (if rs.panicked then "panic:not-http2" else "ok") (rs.reports.map fun s => fmtSample true s "nil")
+    let ikv := parseKV impl
+    let exp := Spec.C10.expectedTag cfg.enabled cfg.uriElements cfg.noTagOnly r.tag r.path
+    let v := match parseSamples true (getS ikv "s") with
+      | none => s!"fail:crash:unparsable observation {impl.take 120}"
+      | some [o] =>
+        if getS ikv "res" != "panic:not-http2" then s!"fail:run:{getS ikv "res"}"
+        else if o.tags != exp then s!"fail:tag:got {o.tags} want {exp}"
+        else "ok"
+      | some l => s!"fail:count:{l.length} samples for one request"
+    (line, v)
+  | _ => ("-", "fail:driver:pan=1 takes exactly one request")
 
 /-! k=scn -/
 
@@ -254,6 +287,7 @@ def parseGCall (s : String) : Option GCall :=
       | "code" => some (.invoked c (postOfAssert pp (grpcToHttp c)))
       | "nomethod" => some .unknownMethod
       | "badpayload" => some .badPayload
+      | "tpl" => some .prepErr
       | _ => none
     pure { tag := tag, outcome := o }
   | _ => none
@@ -337,7 +371,7 @@ def handle : Handler := fun input impl =>
   if impl.startsWith "PANIC" then ("-", s!"fail:panic:{impl.take 160}")
   else if impl == "HANG" then ("-", "fail:hang:driver case timed out")
   else match getS kv "k" with
-  | "http" => handleHttp kv impl
+  | "http" => if getS kv "pan" == "1" then handleHttpFatal kv impl else handleHttp kv impl
   | "scn" => handleScn kv impl
   | "grpc" => handleGrpc kv impl
   | "grpcscn" => handleGrpcScn kv impl
